@@ -30,6 +30,15 @@ Proof.
   destruct (trun_good v f js k d c m) as (_ & Hs & _). eapply Hs; exact H.
 Qed.
 
+(* undo (or redo) of the change object kept after a successful do stays inside the footprint announced
+   before the do, whatever the tree, the schedule and the job set at that later time *)
+Theorem run_frame_of_done v f js k d c m m' k' c' v2 f2 js2 k2 d2 m2 key :
+  run v f js k d c m = Ok m' k' c' -> footprint c key = false ->
+  res_fs (run v2 f2 js2 k2 d2 c' m2) !! key = m2 !! key.
+Proof.
+  intros H Hk. apply run_frame. rewrite (run_same_footprint _ _ _ _ _ _ _ _ _ _ H key). exact Hk.
+Qed.
+
 Theorem run_footprint_exact v f js k d c m key :
   res_fs (run v f js k d c m) !! key <> m !! key -> footprint c key = true.
 Proof.
